@@ -28,6 +28,8 @@ def bodyOf : List String → Option (List Step)
   | ["meta"] => some metaBody
   | ["predict", a] => (nat? a).map predictBody
   | ["multi", _] => some []
+  -- a swap begun: the amount leaves the owner's balance (escrow); nothing of it stays in the process
+  | ["swapbegin", u, a] => (nat? a).map (fun a => [.stub (fun b => subTok b u a)])
   | ["bad", _, _] => some [.mem (fun _ => none)]    -- a request that fails, whatever the reason: no effect, an error reply
   | _ => none
 
